@@ -532,6 +532,10 @@ void tickit_pen_copy_attr(TickitPen *dst, const TickitPen *src, TickitPenAttr at
 
 void tickit_pen_copy(TickitPen *dst, const TickitPen *src, bool overwrite)
 {
+  /* The change handlers of dst run inside the loop below and may drop the
+   * last reference to src, which is still being read */
+  TickitPen *held = tickit_pen_ref((TickitPen *)src);
+
   freeze(dst);
 
   for(TickitPenAttr attr = 1; attr < TICKIT_N_PEN_ATTRS; attr++) {
@@ -545,6 +549,8 @@ void tickit_pen_copy(TickitPen *dst, const TickitPen *src, bool overwrite)
   }
 
   thaw(dst);
+
+  tickit_pen_unref(held);
 }
 
 TickitPenAttrType tickit_penattr_type(TickitPenAttr attr)
